@@ -419,12 +419,50 @@ static void check_frozen (void)
     }
 }
 
+/* white-box: how often is connection c linked into the default-timeout / manual-timeout XDLL (bounded walk) */
+static void tolist_count (struct MHD_Connection *mc, int *n, int *m, int *cyc)
+{
+  struct MHD_Connection *p; int steps;
+  *n = *m = *cyc = 0;
+  for (p = d->normal_timeout_head, steps = 0; NULL != p && steps < 64; p = p->nextX, steps++) if (p == mc) (*n)++;
+  if (NULL != p) *cyc = 1;
+  for (p = d->manual_timeout_head, steps = 0; NULL != p && steps < 64; p = p->nextX, steps++) if (p == mc) (*m)++;
+  if (NULL != p) *cyc = 1;
+}
+
+/* a suspended connection is in no timeout list; an active one is in exactly one, exactly once: the one its timeout selects.
+ * A suspended connection found in a list is taken out again (the violation is reported): the later resume would link the
+ * node a second time and every list walk of the daemon (MHD_get_timeout64) would spin.  A corruption that cannot be
+ * undone ends the process after the report. */
+static void check_tolists (const char *when)
+{
+  int c;
+  if (NULL == d || threaded ()) return;
+  for (c = 0; c < MAXC; c++)
+  {
+    struct MHD_Connection *mc = conns[c].mc; int n, m, cyc, ok;
+    if (!conns[c].used || NULL == mc || MHD_CONNECTION_CLOSED == mc->state) continue;
+    tolist_count (mc, &n, &m, &cyc);
+    if (mc->suspended) ok = (0 == n && 0 == m && !cyc);
+    else ok = (!cyc && 1 == n + m && ((1 == n) == (mc->connection_timeout_ms == d->connection_timeout_ms)));
+    if (ok) continue;
+    out ("tolist-violation c=%d when=%s suspended=%d normal=%d manual=%d cycle=%d", c, when, (int) mc->suspended, n, m, cyc);
+    if (mc->suspended && !cyc && n + m == 1)
+    {
+      if (n) XDLL_remove (d->normal_timeout_head, d->normal_timeout_tail, mc);
+      else XDLL_remove (d->manual_timeout_head, d->manual_timeout_tail, mc);
+    }
+    else { fflush (stdout); _exit (3); }
+  }
+}
+
 static void report (void)
 {
   uint64_t to;
   const union MHD_DaemonInfo *di;
   drain_clients ();
   if (NULL == d) return;
+  check_tolists ("round");
   check_frozen ();
   if (!threaded ()) { if (MHD_YES == MHD_get_timeout64 (d, &to)) out ("hint %" PRIu64, to); else out ("hint none"); }
   di = MHD_get_daemon_info (d, MHD_DAEMON_INFO_CURRENT_CONNECTIONS);
@@ -660,6 +698,13 @@ int main (void)
     if (!strcmp (op, "rounds") && l.n >= 2 && lp_u64 (l.w[1], &a))
     { for (i = 0; i < (int) a; i++) { one_round (); drain_clients (); check_frozen (); } report (); out ("round-end"); continue; }
     if (!strcmp (op, "tick") && l.n >= 2 && lp_u64 (l.w[1], &a)) { vclock_ms += a; out ("ok"); continue; }
+    if (!strcmp (op, "settimeout") && l.n >= 3 && lp_u64 (l.w[1], &a) && lp_u64 (l.w[2], &b) && a < MAXC && conns[a].mc && !threaded ())
+    { /* MHD_set_connection_option (TIMEOUT) from outside a callback, at any time: also while the connection is suspended */
+      int su = (int) conns[a].mc->suspended;
+      MHD_set_connection_option (conns[a].mc, MHD_CONNECTION_OPTION_TIMEOUT, (unsigned int) b);
+      out ("settimeout c=%d sec=%u susp=%d", (int) a, (unsigned int) b, su);
+      check_tolists ("settimeout");
+      continue; }
     if (!strcmp (op, "tick-if-susp") && l.n >= 3 && lp_u64 (l.w[1], &a) && lp_u64 (l.w[2], &b) && a < MAXC && !threaded ())
     { /* the virtual clock advances only while connection a is suspended (and nobody has resumed it yet) */
       if (conns[a].used && conns[a].is_susp) { vclock_ms += b; out ("ticked c=%d ms=%" PRIu64, (int) a, b); }
@@ -670,8 +715,10 @@ int main (void)
     if (!strcmp (op, "wb") && l.n >= 2 && lp_u64 (l.w[1], &a) && a < MAXC && conns[a].mc && !threaded ())
     { /* white-box view of the flags the model carries */
       struct MHD_Connection *mc = conns[a].mc;
-      out ("wb c=%d suspended=%d resuming=%d dresuming=%d age=%" PRIu64 " cto=%" PRIu64 " eli=%d ep=%d", (int) a, (int) mc->suspended, (int) mc->resuming,
-           (int) d->resuming, (uint64_t) (vclock_ms - mc->last_activity), (uint64_t) mc->connection_timeout_ms, (int) mc->event_loop_info,
+      int tn, tm, tc;
+      tolist_count (mc, &tn, &tm, &tc);
+      out ("wb c=%d suspended=%d resuming=%d dresuming=%d age=%" PRIu64 " cto=%" PRIu64 " nto=%d mto=%d tocyc=%d eli=%d ep=%d", (int) a, (int) mc->suspended, (int) mc->resuming,
+           (int) d->resuming, (uint64_t) (vclock_ms - mc->last_activity), (uint64_t) mc->connection_timeout_ms, tn, tm, tc, (int) mc->event_loop_info,
 #ifdef EPOLL_SUPPORT
            (int) mc->epoll_state
 #else
